@@ -423,6 +423,18 @@ func runChildOnce(h history) (childResult, error) {
 	return r, nil
 }
 
+func hung(r childResult) bool {
+	if strings.HasPrefix(r.FinalErr, "HANG") {
+		return true
+	}
+	for _, st := range r.Steps {
+		if strings.HasPrefix(st.Err, "HANG") {
+			return true
+		}
+	}
+	return false
+}
+
 func main() {
 	flag.Parse()
 	if *flagHistory != "" {
@@ -485,6 +497,15 @@ func main() {
 			return false
 		}
 		r, err := runChild(hs[i])
+		// a history that hit a backstop is only believed if it does so again, twice, in fresh processes
+		for again := 0; again < 2 && err == nil && hung(r); again++ {
+			rep.AddInt("backstop_reruns", 1)
+			r2, err2 := runChild(hs[i])
+			if err2 != nil || !hung(r2) {
+				r, err = r2, err2
+				break
+			}
+		}
 		results[i], errs[i] = r, err
 		rep.Eval(1)
 		if len(hs[i].Attempts) == 0 && err == nil {
